@@ -241,6 +241,11 @@ var DissectOracles = map[string]string{
 	// not (?i), whose Unicode folding would also accept the Kelvin sign for k and the long s for s
 	"dissecti:k=%{v};":             `[kK]=(?P<v>[^;]*);`,
 	"dissecti:ID=%{id} user=%{u};": `[iI][dD]=(?P<id>.*?) [uU][sS][eE][rR]=(?P<u>.*?);`,
+	// literals that overlap themselves (first occurrence = shortest leading token)
+	"dissecti:%{task}==>%{state}": `(?s)^(?P<task>.*?)==>(?P<state>.*)$`,
+	"dissect:%{task}==>%{state}":  `(?s)^(?P<task>.*?)==>(?P<state>.*)$`,
+	"dissecti:%{h}::1 %{rest}":    `(?s)^(?P<h>.*?)::1 (?P<rest>.*)$`,
+	"dissecti:%{x}aab%{y}":        `(?s)^(?P<x>.*?)[aA][aA][bB](?P<y>.*)$`,
 }
 
 // ---------- scripted reader ----------
